@@ -230,8 +230,22 @@ def bg_correct(raw, bg, df=None):
         df = raw.copy()
         df[:] = 0
 
-    if not (raw.shape == bg.shape == df.shape and list(get_spacing(raw)) == list(get_spacing(bg)) == list(get_spacing(df))):
+    if not (raw.shape == bg.shape == df.shape and
+            np.allclose(get_spacing(raw), get_spacing(bg), rtol=1e-9, atol=0)
+            and np.allclose(get_spacing(raw), get_spacing(df), rtol=1e-9,
+                            atol=0)):
         raise BadImage("raw and background images must have the same shape and spacing")
+    for other in (bg, df):
+        for dim, tolerance in zip('xy', 1e-6 * np.abs(get_spacing(raw))):
+            if not np.allclose(raw[dim].values, other[dim].values, rtol=0,
+                               atol=tolerance):
+                # (xarray would silently divide only the pixels whose
+                # coordinates are in both images)
+                raise BadImage("raw and background images must have the "
+                               "same pixel coordinates")
+    # the same pixels to rounding are the same pixels
+    bg = bg.assign_coords(x=raw.x.values, y=raw.y.values)
+    df = df.assign_coords(x=raw.x.values, y=raw.y.values)
 
     if df.dtype.kind in 'iu':
         # integer images (unsigned ones in particular) would wrap around
